@@ -7,7 +7,8 @@
    shared variables, so that the same scenario data drives the model and the real interpreter
    (harness/scm/sched-driver.scm interprets the same scripts).
    Deadlines are abstract: dl[t] = 0 untimed, 1 = timeout 0 (expired by the next scheduler run),
-   2 = far future (never expires in a run). *)
+   3 = soon (a few milliseconds: it expires at SOME later scheduler run, which one is not determined),
+   2 = far future (never expires in a run).  Order of deadlines: 1 < 3 < 2. *)
 EXTENDS Integers, Sequences, FiniteSets, TLC, SequencesExt
 
 CONSTANTS Threads,     \* 0..N, 0 = the primordial thread
@@ -34,7 +35,8 @@ Init == /\ cur = 0 /\ runq = <<>> /\ paused = <<>>
 
 \* ---- sexp_insert_timed(thread, timeout): d = 0 (#f), 1 (expired soon), 2 (far)
 \* delete, then insert after the timed entries that are not later (timed) / before the first untimed (untimed)
-Before(c, d, dls) == dls[c] # 0 /\ dls[c] <= d
+Rank(d) == IF d = 3 THEN 2 ELSE IF d = 2 THEN 3 ELSE d
+Before(c, d, dls) == dls[c] # 0 /\ Rank(dls[c]) <= Rank(d)
 InsertTimed(ps, t, d, dls) ==
    LET q == Del(ps, t)
        k == IF d # 0
@@ -188,7 +190,10 @@ Preempt == /\ Running /\ ran /\ must' = TRUE
 \* ------------------------------------------------------------------ sexp_scheduler(ctx = cur)
 \* nto: how many leading expired entries of paused are timed out now (model checking: all of them)
 Expired(ps, dls) == Cardinality({i \in 1..Len(ps) : \A j \in 1..i : dls[ps[j]] = 1})
-ScheduleWith(nto) ==
+\* the leading entries whose deadline MAY have passed (class 1: has passed, class 3: may have)
+MayExpire(ps, dls) == Cardinality({i \in 1..Len(ps) : \A j \in 1..i : dls[ps[j]] \in {1, 3}})
+\* sx: the waiting thread that is chosen because nothing else can run reached its own "soon" deadline in this run
+ScheduleWith(nto, sx) ==
   /\ ~done /\ must /\ ran' = FALSE
   /\ LET \* joiners of a terminated cur go to the back of the run queue
          joiners == IF ~alive[cur] THEN SelectSeq(paused, LAMBDA p : event[p] = <<"J", cur>>) ELSE <<>>
@@ -217,8 +222,8 @@ ScheduleWith(nto) ==
          p4 == IF ~waiting THEN p3
                ELSE IF swap THEN (IF ~InSeq(Tail(p3), r0) THEN InsertTimed(Tail(p3), r0, dl3[r0], dl3) ELSE Tail(p3))
                ELSE Del(p3, r0)
-         exp == waiting /\ dl3[r1] = 1                        \* its deadline has passed: it times out now
-     IN /\ nto <= Expired(p1, dl)
+         exp == waiting /\ (dl3[r1] = 1 \/ (dl3[r1] = 3 /\ sx))    \* its deadline has passed: it times out now
+     IN /\ nto <= MayExpire(p1, dl)
         /\ cur' = r1 /\ runq' = q3 /\ paused' = p4 /\ dl' = dl3
         /\ waitp' = IF exp THEN [w2 EXCEPT ![r1] = FALSE] ELSE w2
         /\ timeoutp' = IF exp THEN [t2 EXCEPT ![r1] = TRUE] ELSE t2
@@ -226,7 +231,9 @@ ScheduleWith(nto) ==
   /\ must' = (waitp'[cur'] \/ ~alive[cur'])
   /\ UNCHANGED <<event, alive, started, locked, owner, pc, phase, tmp, sh, out, done, res>>
 
-Schedule == ScheduleWith(Expired(SelectSeq(paused, LAMBDA p : ~(~alive[cur] /\ event[p] = <<"J", cur>>)), dl))
+P1 == SelectSeq(paused, LAMBDA p : ~(~alive[cur] /\ event[p] = <<"J", cur>>))
+\* model checking: every class-1 entry times out, any number of the following class-3 entries may
+Schedule == \E n \in Expired(P1, dl)..MayExpire(P1, dl), sx \in BOOLEAN : ScheduleWith(n, sx)
 
 Next == Exec \/ Preempt \/ Schedule
 Spec == Init /\ [][Next]_vars
